@@ -405,6 +405,18 @@ impl PairWorld {
     }
 
     /// C01 + C02 oracle after every transaction (successful or not)
+    /// the result of add / remove liquidity names the tokens it paid: LP, first, second — in that order, as documented
+    fn check_result_tokens(&self, tr: &mut Trace, site: &str, got: &Option<Vec<Vec<u8>>>, want: &[&[u8]]) {
+        if let Some(g) = got {
+            let w: Vec<Vec<u8>> = want.iter().map(|x| x.to_vec()).collect();
+            if *g != w {
+                tr.fail("C04", "result_names_tokens", site, &format!("the endpoint's result names the tokens {:?}, expected {:?}",
+                    g.iter().map(|x| String::from_utf8_lossy(x).to_string()).collect::<Vec<_>>(),
+                    w.iter().map(|x| String::from_utf8_lossy(x).to_string()).collect::<Vec<_>>()));
+            }
+        }
+    }
+
     fn oracle_common(&mut self, tr: &mut Trace, site: &str, pre: &Snap, post: &Snap, ok: bool) {
         // C01: backing, LP supply, positivity
         if post.bal1 < post.r1 || post.bal2 < post.r2 {
@@ -903,6 +915,7 @@ impl World for PairWorld {
         let n = tr.op(text);
         let w: Vec<&str> = text.split_whitespace().collect();
         let site = w[0].to_string();
+        let mut res_toks: Option<Vec<Vec<u8>>> = None; // token identifiers of the payments an endpoint REPORTS in its result
         tr.count(&format!("op.{}", site));
         // top up the caller first (before the pre-snapshot) so that op texts stay executable
         match w[0] {
@@ -962,7 +975,9 @@ impl World for PairWorld {
                 let r = self.b.execute_esdt_multi_transfer(&c, &self.pair, &transfers, |sc| {
                     let (lp, f, s2) = sc.add_initial_liquidity().into_tuple();
                     o = (to_big(&lp.amount), to_big(&f.amount), to_big(&s2.amount));
+                    res_toks = Some(vec![tid(&lp.token_identifier), tid(&f.token_identifier), tid(&s2.token_identifier)]);
                 });
+                self.check_result_tokens(tr, &site, &res_toks, &[LP, FIRST, SECOND]);
                 outs = format!("{} {} {}", o.0, o.1, o.2);
                 let ok = r.result_status == 0;
                 tr.count(&format!(
@@ -1012,7 +1027,9 @@ impl World for PairWorld {
                         )
                         .into_tuple();
                     o = (to_big(&lp.amount), to_big(&f.amount), to_big(&s2.amount));
+                    res_toks = Some(vec![tid(&lp.token_identifier), tid(&f.token_identifier), tid(&s2.token_identifier)]);
                 });
+                self.check_result_tokens(tr, &site, &res_toks, &[LP, FIRST, SECOND]);
                 outs = format!("{} {} {}", o.0, o.1, o.2);
                 let ok = r.result_status == 0;
                 if ok {
@@ -1058,7 +1075,9 @@ impl World for PairWorld {
                         )
                         .into_tuple();
                     o = (to_big(&f.amount), to_big(&s2.amount));
+                    res_toks = Some(vec![tid(&f.token_identifier), tid(&s2.token_identifier)]);
                 });
+                self.check_result_tokens(tr, &site, &res_toks, &[FIRST, SECOND]);
                 outs = format!("{} {} 0", o.0, o.1);
                 let ok = r.result_status == 0;
                 if ok {
@@ -1595,6 +1614,10 @@ impl PairWorld {
             tr.fail("C03", "output_side_conservation", site, &format!("pair lost {lost} of the output token, paid {out}, reserve moved {}", r_out_pre - r_out_post));
         }
     }
+}
+
+fn tid(t: &multiversx_sc::types::TokenIdentifier<DebugApi>) -> Vec<u8> {
+    t.to_boxed_bytes().as_slice().to_vec()
 }
 
 fn main() {
